@@ -84,5 +84,63 @@ impl<Role, T, NameState, SS, TS> Builder<Role, T, NameState, SS, TS> {
 //@@ end
 }
 
+// ---------------------------------------------------------------- Sender::attach / Receiver::attach: the one-call attach (link/sender.rs, link/receiver.rs)
+opaque!(Address, SessionHandleS, SenderAttachError, ReceiverAttachError);
+/// `Address -> Target` / `Address -> Source` (fe2o3-amqp-types: a terminus with that address and every other field at its default)
+pub uninterp spec fn target_of(a: Address) -> Target;
+pub uninterp spec fn source_of(a: Address) -> Source;
+#[verifier::external_body]
+pub fn addr_into_target(a: Address) -> (r: Target) ensures r == target_of(a) { unimplemented!() }
+#[verifier::external_body]
+pub fn addr_into_source(a: Address) -> (r: Source) ensures r == source_of(a) { unimplemented!() }
+/// the settings a freshly created builder starts from (`Builder::new()`: `Default` plus the role's own terminus; not extracted, see the trusted note)
+pub uninterp spec fn fresh_sender() -> Builder<role::SenderMarker, Target, WithoutName, WithSource, WithoutTarget>;
+pub uninterp spec fn fresh_receiver() -> Builder<role::ReceiverMarker, Target, WithoutName, WithoutSource, WithTarget>;
+pub struct SenderS { pub from: Ghost<Builder<role::SenderMarker, Target, WithName, WithSource, WithTarget>> }
+pub struct ReceiverS { pub from: Ghost<Builder<role::ReceiverMarker, Target, WithName, WithSource, WithTarget>> }
+impl Builder<role::SenderMarker, Target, WithName, WithSource, WithTarget> {
+    /// Builder::attach -> attach_inner (unit WIRING): the link is created from the builder's fields
+    #[verifier::external_body]
+    pub fn attach(self, session: &mut SessionHandleS) -> (r: Result<SenderS, SenderAttachError>) ensures r is Ok ==> r->Ok_0.from@ == self { unimplemented!() }
+}
+impl Builder<role::ReceiverMarker, Target, WithName, WithSource, WithTarget> {
+    #[verifier::external_body]
+    pub fn attach(self, session: &mut SessionHandleS) -> (r: Result<ReceiverS, ReceiverAttachError>) ensures r is Ok ==> r->Ok_0.from@ == self { unimplemented!() }
+}
+impl SenderS {
+    #[verifier::external_body]
+    pub fn builder() -> (r: Builder<role::SenderMarker, Target, WithoutName, WithSource, WithoutTarget>) ensures r == fresh_sender() { unimplemented!() }
+//@@ fn file=fe2o3-amqp/src/link/sender.rs impl=`impl Sender` name=attach as=sender_attach
+//@@ generics
+//@@ nowhere
+//@@ param session : &mut SessionHandleS
+//@@ param name : String
+//@@ param addr : Address
+//@@ ret Result<SenderS, SenderAttachError>
+//@@ subst `.target(addr)` => `.target(addr_into_target(addr))` rule=R16
+//@@ spec
+    ensures
+        r is Ok ==> r->Ok_0.from@.name == name && r->Ok_0.from@.target == Some(target_of(addr)) && r->Ok_0.from@.source == fresh_sender().source,       // [C01.attach.one-call-sender-targets-the-address] `Sender::attach(session, name, addr)` attaches a link of that name whose TARGET is the address given (its source is the builder's own): what is sent on it goes to that node
+        r is Ok ==> carried(fresh_sender(), r->Ok_0.from@),       // [C02.builder.typestate-keeps-what-was-configured] [C08.builder.typestate-keeps-what-was-configured] and with every other setting at the builder's default
+//@@ end
+}
+impl ReceiverS {
+    #[verifier::external_body]
+    pub fn builder() -> (r: Builder<role::ReceiverMarker, Target, WithoutName, WithoutSource, WithTarget>) ensures r == fresh_receiver() { unimplemented!() }
+//@@ fn file=fe2o3-amqp/src/link/receiver.rs impl=`impl Receiver` name=attach as=receiver_attach
+//@@ generics
+//@@ nowhere
+//@@ param session : &mut SessionHandleS
+//@@ param name : String
+//@@ param addr : Address
+//@@ ret Result<ReceiverS, ReceiverAttachError>
+//@@ subst `.source(addr)` => `.source(addr_into_source(addr))` rule=R16
+//@@ spec
+    ensures
+        r is Ok ==> r->Ok_0.from@.name == name && r->Ok_0.from@.source == Some(source_of(addr)) && r->Ok_0.from@.target == fresh_receiver().target,       // [C01.attach.one-call-receiver-reads-the-address] `Receiver::attach(session, name, addr)` attaches a link whose SOURCE is the address given: what arrives on it comes from that node
+        r is Ok ==> carried(fresh_receiver(), r->Ok_0.from@),       // [C02.builder.typestate-keeps-what-was-configured] [C09.builder.typestate-keeps-what-was-configured]
+//@@ end
+}
+
 } // verus!
 fn main() {}
